@@ -104,20 +104,22 @@ theorem maxIntrospectionDepth_neverPanics : maxIntrospectionDepth.NeverPanics :=
 def TopJumpOK (d : QueryDoc) (n : Nat) (J : TopJump) : Prop :=
   ∀ sels (st : TopState), unvisited d st.inFrag + 1 ≤ n → ∃ r, J sels st = some r ∧ st.inFrag ⊆ r.inFrag
 
-theorem topWalk_ok (l : Links) (d : QueryDoc) (J : TopJump) (n : Nat) (hJ : TopJumpOK d n J) :
+theorem topWalk_ok (s : SV) (root : Name) (l : Links) (d : QueryDoc) (J : TopJump) (n : Nat) (hJ : TopJumpOK d n J) :
     ∀ (sels : Selections) (st : TopState), unvisited d st.inFrag ≤ n →
-      ∃ r, topWalk l d J sels st = some r ∧ st.inFrag ⊆ r.inFrag
+      ∃ r, topWalk s root l d J sels st = some r ∧ st.inFrag ⊆ r.inFrag
   | .nil, st, _ => ⟨st, by simp [topWalk], fun _ hx => hx⟩
   | .cons (.field al nm _ _ _ p) rest, st, h => by
     unfold topWalk
-    exact topWalk_ok l d J n hJ rest { st with fields := st.fields ++ [(if al != [] then al else nm, nm, p)] } h
-  | .cons (.inline _ _ sub _) rest, st, h => by
+    exact topWalk_ok s root l d J n hJ rest { st with fields := st.fields ++ [(if al != [] then al else nm, nm, p)] } h
+  | .cons (.inline tc _ sub _) rest, st, h => by
     unfold topWalk
-    obtain ⟨r1, h1, m1⟩ := topWalk_ok l d J n hJ sub st h
-    rw [h1]
-    simp only
-    obtain ⟨r2, h2, m2⟩ := topWalk_ok l d J n hJ rest r1 (Nat.le_trans (unvisited_mono d m1) h)
-    exact ⟨r2, h2, fun a ha => m2 (m1 ha)⟩
+    split
+    · obtain ⟨r1, h1, m1⟩ := topWalk_ok s root l d J n hJ sub st h
+      rw [h1]
+      simp only
+      obtain ⟨r2, h2, m2⟩ := topWalk_ok s root l d J n hJ rest r1 (Nat.le_trans (unvisited_mono d m1) h)
+      exact ⟨r2, h2, fun a ha => m2 (m1 ha)⟩
+    · exact topWalk_ok s root l d J n hJ rest st h
   | .cons (.spread nm _ p) rest, st, h => by
     unfold topWalk
     cases hs : l.spreadDef d nm p with
@@ -125,24 +127,28 @@ theorem topWalk_ok (l : Links) (d : QueryDoc) (J : TopJump) (n : Nat) (hJ : TopJ
     | some f =>
       simp only
       split
-      · exact topWalk_ok l d J n hJ rest st h
+      · exact topWalk_ok s root l d J n hJ rest st h
       · rename_i hc
         have hf := spreadDef_some hs
         have hc' : st.inFrag.contains f.name = false := by simpa using hc
         have hlt := unvisited_lt d st.inFrag f (fragForName_mem hf) hc'
-        obtain ⟨r1, h1, m1⟩ := hJ f.sel { st with inFrag := f.name :: st.inFrag } (by simp only; omega)
-        rw [h1]
-        simp only
-        have m1' : st.inFrag ⊆ r1.inFrag := fun a ha => m1 (List.mem_cons_of_mem _ ha)
-        obtain ⟨r2, h2, m2⟩ := topWalk_ok l d J n hJ rest r1 (Nat.le_trans (unvisited_mono d m1') h)
-        exact ⟨r2, h2, fun a ha => m2 (m1' ha)⟩
+        split
+        · obtain ⟨r1, h1, m1⟩ := hJ f.sel { st with inFrag := f.name :: st.inFrag } (by simp only; omega)
+          rw [h1]
+          simp only
+          have m1' : st.inFrag ⊆ r1.inFrag := fun a ha => m1 (List.mem_cons_of_mem _ ha)
+          obtain ⟨r2, h2, m2⟩ := topWalk_ok s root l d J n hJ rest r1 (Nat.le_trans (unvisited_mono d m1') h)
+          exact ⟨r2, h2, fun a ha => m2 (m1' ha)⟩
+        · obtain ⟨r2, h2, m2⟩ := topWalk_ok s root l d J n hJ rest { st with inFrag := f.name :: st.inFrag }
+            (by simp only; omega)
+          exact ⟨r2, h2, fun a ha => m2 (List.mem_cons_of_mem _ ha)⟩
 
-theorem topLevel_ok (l : Links) (d : QueryDoc) : ∀ n, TopJumpOK d n (topLevel l d n)
+theorem topLevel_ok (s : SV) (root : Name) (l : Links) (d : QueryDoc) : ∀ n, TopJumpOK d n (topLevel s root l d n)
   | 0 => by intro _ _ h; omega
   | n + 1 => by
     intro sels st h
     simp only [topLevel]
-    exact topWalk_ok l d _ n (topLevel_ok l d n) sels st (by omega)
+    exact topWalk_ok s root l d _ n (topLevel_ok s root l d n) sels st (by omega)
 
 theorem singleFieldSubscriptions_neverPanics : singleFieldSubscriptions.NeverPanics := by
   intro s d st e m h
@@ -157,8 +163,8 @@ theorem singleFieldSubscriptions_neverPanics : singleFieldSubscriptions.NeverPan
       simp only at hstep
       split at hstep
       · cases hstep
-      · obtain ⟨r, hr, _⟩ := topLevel_ok e.links d (d.frags.length + 1) op.sel { fields := [], inFrag := [] }
-          (by simp only [unvisited_nil]; omega)
+      · obtain ⟨r, hr, _⟩ := topLevel_ok s (s.subscription.getD []) e.links d (d.frags.length + 1) op.sel
+          { fields := [], inFrag := [] } (by simp only [unvisited_nil]; omega)
         rw [hr] at hstep
         cases hstep
     | _ => rw [hp] at hstep; cases hstep
